@@ -521,12 +521,13 @@ def body_of(path): return r'get::\{closure#0\}::<impl at src/functions/%s\.rs:[^
 def combos(*lists): return [list(c) for c in itertools.product(*lists)]
 
 
-def table():
+def table(deep=False):
     T = []
+    W = 4 if deep else 3          # widest list / object; thorough tier goes one wider and one argument further
     def add(name, body, ref, shapes, doc, demos=()): T.append(dict(name=name, body=body, ref=ref, shapes=shapes, doc=doc, demos=list(demos)))
     B = [sh_bool] + NONBOOL
     for nm, neutral in (('and', True), ('or', False)):
-        add(nm, body_of('boolean/logical/' + nm), ref_and_or(neutral), combos(B, B) + combos(B, B, B),
+        add(nm, body_of('boolean/logical/' + nm), ref_and_or(neutral), combos(B, B) + combos(B, B, B) + (combos(B, B, B, [sh_bool, sh_nothing, sh_pos]) if deep else []),
             'true / false by the truth of all (any) arguments, nothing when an argument is not a boolean',
             [(f'({nm} true true true)', nm == 'and' or True), (f'({nm} false false)', False), (f'({nm} true false true)', nm == 'or'), (f'({nm} false true)', nm == 'or'), (f'({nm} {"true" if nm == "and" else "false"} 12)', 'nothing'),
              (f'({nm} {"true" if nm == "and" else "false"} {"true" if nm == "and" else "false"} null)', 'nothing')])
@@ -550,7 +551,7 @@ def table():
             ([('(as_string "\u00e9\u4e2d")', '\u00e9\u4e2d'), ('(as_string "")', '')] if nm == 'as_string' else []) + ([('(as_array [])', []), ('(as_array [[1],{"a":2}])', [[1], {'a': 2}])] if nm == 'as_array' else []))
     EL = [sh_bool, sh_null, sh_pos]
     def arr_of(*els): return lambda i: ('arr', [e(f'{i}_{j}') for j, e in enumerate(els)])
-    lists = [arr_of(*c) for n in range(0, 4) for c in itertools.product(EL, repeat=n)]
+    lists = [arr_of(*c) for n in range(0, W + 1) for c in itertools.product(EL, repeat=n)]
     add('all', body_of('list/list_folding/all'), ref_all, combos(lists + [sh_nothing, sh_obj(1), sh_bool]),
         'true iff the list is not empty and every item is true; nothing for a non-list', [('(all [true, true])', True), ('(all [true, false, true])', False), ('(all [])', False), ('(all [true, 1])', False), ('(all [true, null, true])', False), ('(all true)', 'nothing')])
     add('any', body_of('list/list_folding/any'), ref_any, combos(lists + [sh_nothing, sh_obj(1), sh_bool]),
@@ -562,17 +563,17 @@ def table():
     add('join', body_of('list/list_folding/join'), ref_join, combos(SL) + combos(SL, [sh_str(0), sh_str(1), sh_str(2)]),
         'the items of a list of strings joined with the separator (", " when omitted); nothing when an item is not a string or the first argument not a list',
         [('(join ["a","b","c"])', 'a, b, c'), ('(join ["a","b"] "-")', 'a-b'), ('(join ["a"] "-")', 'a'), ('(join [] "-")', ''), ('(join ["a", 1])', 'nothing'), ('(join ["a","b","c"] "")', 'abc'), ('(join "a")', 'nothing')])
-    A = [sh_arr(0), sh_arr(1), sh_arr(2), sh_arr(3)]
+    A = [sh_arr(k) for k in range(W + 1)]
     add('indexed', body_of('list/list_manipulations/indexed'), ref_indexed, combos(A + [sh_nothing, sh_obj(1), sh_str(1), sh_pos]),
         'a list of {index, value} objects, one per element, in order; nothing for a non-list', [('(indexed ["a","b"])', [{'value': 'a', 'index': 0}, {'value': 'b', 'index': 1}]), ('(indexed [])', []), ('(indexed {})', 'nothing')])
-    O = [sh_obj(0), sh_obj(1), sh_obj(2), sh_obj(3)]
+    O = [sh_obj(k) for k in range(W + 1)]
     add('entries', body_of('object/object_to_list/entries'), ref_entries, combos(O + [sh_nothing, sh_arr(1), sh_str(1), sh_pos]),
         'a list of {key, value} objects, one per member, in member order; nothing for a non-object', [('(entries {"b":1,"a":2})', [{'value': 1, 'key': 'b'}, {'value': 2, 'key': 'a'}]), ('(entries {})', []), ('(entries [1])', 'nothing')])
     def key_of(j): return lambda i: ('ostr', f'K0_{j}')
     def newkey(i): return ('ostr', 'KNEW')
     for nm, file, absent in (('insert_if_absent', 'insert_if_absent', True), ('replace_if_exists', 'replace_if_exists', False)):
         shapes = []
-        for k in range(0, 4):
+        for k in range(0, W + 1):
             for key in [key_of(j) for j in range(k)] + [newkey]: shapes.append([sh_obj(k), key, sh_opq])
         shapes += [[sh_arr(1), newkey, sh_opq], [sh_nothing, newkey, sh_opq], [sh_obj(1), sh_pos, sh_opq], [sh_obj(1), sh_nothing, sh_opq], [sh_obj(1), newkey, sh_nothing], [sh_obj(1), key_of(0), sh_nothing], [sh_str(1), newkey, sh_opq]]
         add(nm, body_of('object/manipulate_object/' + file), ref_put_if(absent), shapes,
@@ -668,9 +669,9 @@ def _task(args):
 def kernels2(ctx, names=None):
     from .par import pmap
     run = ctx.run
-    T = [e for e in table() if names is None or e['name'] in names]
+    T = [e for e in table(deep=not ctx.quick) if names is None or e['name'] in names]
     run.bounds['kernels2'] = ('per function every combination of argument shapes of its list (booleans free, integers any 64-bit value of either sign, an opaque double, strings of 0..2 free bytes that are well-formed UTF-8, '
-                              'lists / objects of 0..3 opaque or typed elements, nothing, null); see the shapes in vf/scen_kernels2.py:table')
+                              'lists / objects of 0..3 (thorough: 0..4) opaque or typed elements, nothing, null); see the shapes in vf/scen_kernels2.py:table')
     run.assume('kernels2: getters of the arguments are pure and return the shape\'s value; Vec / IndexMap / String are sequences of concrete length per path; iterator adaptors run the real closure bodies; '
                'JsonValue == is structural on concrete variants (mixed-variant numbers and opaque values: an uninterpreted predicate)')
     inl = conversions(ctx)
@@ -789,10 +790,11 @@ def ref_filter(args, answers):
     return ('arr', [x for x, a in zip(l[1], answers) if a is not None and a[0] == 'bool' and z3.is_true(a[1])]), list(l[1])
 
 
-def fn_table():
+def fn_table(deep=False):
     T = []
+    W = 4 if deep else 3
     def add(name, body, ref, colls, alphabet, doc, demos): T.append(dict(name=name, body=body, ref=ref, colls=colls, alphabet=alphabet, doc=doc, demos=demos))
-    O = [sh_obj(k) for k in range(4)]; A = [sh_arr(k) for k in range(4)]
+    O = [sh_obj(k) for k in range(W + 1)]; A = [sh_arr(k) for k in range(W + 1)]
     BOOLISH = [lambda i: A_TRUE, lambda i: A_FALSE, lambda i: None, a_num, lambda i: ('null',)]
     rx = lambda mod, nm: body_of(mod.replace('::', '/') + '/' + nm)
     add('filter_keys', rx('object::functional', 'filter_keys'), ref_filter_members('key'), O, BOOLISH, 'keeps exactly the members whose key the function answers with true, in order; the function sees the key as input and the current input as parent',
@@ -878,8 +880,8 @@ def _ftask(args):
 def kernels_fn(ctx, names=None):
     from .par import pmap
     run = ctx.run
-    T = [e for e in fn_table() if names is None or e['name'] in names]
-    run.bounds['kernels_fn'] = 'lists / objects of 0..3 opaque elements x every script of answers of the function argument over its alphabet (true / false / nothing / a number / null; strings; lists of 0..2) ; ill-typed first arguments'
+    T = [e for e in fn_table(deep=not ctx.quick) if names is None or e['name'] in names]
+    run.bounds['kernels_fn'] = 'lists / objects of 0..3 (thorough: 0..4) opaque elements x every script of answers of the function argument over its alphabet (true / false / nothing / a number / null; strings; lists of 0..2) ; ill-typed first arguments'
     run.assume('kernels_fn: the function argument is a protocol summary (k-th evaluation gives the k-th scripted answer) - what the real argument computes is the argument\'s own kernel')
     inl = conversions(ctx)
     results = pmap(_ftask, [(ctx, e, inl) for e in T])
